@@ -125,6 +125,12 @@ CONTENT = {
 }
 
 
+def _start(run, drv, base, i):
+    from server_family import run_driver
+    return run_driver(run, drv, [dict(id=0, method="GET", path=base + "/swagger.json", rawQuery="", headers={}, full=True),
+                                 dict(id=1, method="GET", path="/swagger.json", rawQuery="", headers={}, full=True)], "e%d" % i)
+
+
 def check_c10(run):
     from server_family import build_server, run_driver
     vh = run.build_vh()
@@ -139,28 +145,50 @@ def check_c10(run):
 
     def one(i):
         c = cases[i]
-        doc = base_spec() if c["doc"] == "rich" else nested_spec()
+        doc = nested_spec() if c["doc"] == "nested" else base_spec()
         for s in sites(doc):
             d = doc
             for k in s[:-1]:
                 d = d[k]
             if d[s[-1]] == NEUTRAL:
                 d[s[-1]] = CONTENT[c["content"]]
-        jp = run.path("embed-%d.json" % i); json.dump(doc, open(jp, "w"))
+        if c["doc"] == "multifile":
+            # definitions and one shared parameter live in sibling files
+            d = run.path("embed-%d" % i, "swagger.json"); d = os.path.dirname(d)
+            defs = doc.pop("definitions")
+            json.dump({"definitions": defs}, open(os.path.join(d, "defs.json"), "w"))
+            json.dump({"parameters": {"limit": {"name": "limit", "in": "query", "type": "integer", "maximum": 50}}}, open(os.path.join(d, "params.json"), "w"))
+            txt = json.dumps(doc).replace('"#/definitions/', '"defs.json#/definitions/')
+            doc = json.loads(txt)
+            for pth in doc["paths"].values():
+                for m, op in pth.items():
+                    if m in ("get", "post", "put", "delete") and not any(p.get("name") == "limit" for p in op.get("parameters", []) if isinstance(p, dict)):
+                        op.setdefault("parameters", []).append({"$ref": "params.json#/parameters/limit"})
+            jp = os.path.join(d, "swagger.json")
+        else:
+            jp = run.path("embed-%d.json" % i)
+        json.dump(doc, open(jp, "w"))
         sp = jp
         if c["fmt"] == "yaml":
-            sp = run.path("embed-%d.yaml" % i)
+            sp = jp[:-5] + ".yaml"
             run.sh([vh, "to-yaml", jp, sp])
+            if c["doc"] == "multifile":
+                os.remove(jp)
         drv, err = build_server(run, "e%d" % i, sp, extra_flags=flags[c["mode"]])
-        ev = dict(ev="Embedded", case=c, built=bool(drv), err=err[-400:] if not drv else "")
+        ev = dict(ev="Embedded", case=c, built=bool(drv), started=bool(drv), err=err[-400:] if not drv else "")
         blank = dict(input="-", orig="-", served="-", inputPaths="-", flatPaths="-", inputSecurity="-", flatSecurity="-", missingDefs=0)
         if not drv:
             ev.update(blank)
             ev["refused"] = err.startswith("generate")
             return ev
         base = doc.get("basePath", "/").rstrip("/")
-        start, resp = run_driver(run, drv, [dict(id=0, method="GET", path=base + "/swagger.json", rawQuery="", headers={}, full=True),
-                                            dict(id=1, method="GET", path="/swagger.json", rawQuery="", headers={}, full=True)], "e%d" % i)
+        ev["started"] = True
+        try:
+            start, resp = _start(run, drv, base, i)
+        except Infra as e:
+            # the server built but its API cannot be set up (the embedded flattened document drives it)
+            ev.update(blank); ev["started"] = False; ev["err"] = str(e)[-600:]
+            return ev
         open(run.path("orig-%d.b64" % i), "w").write(start["swaggerJSON"])
         open(run.path("flat-%d.b64" % i), "w").write(start["flatSwaggerJSON"])
         import base64
